@@ -819,9 +819,27 @@ fn flatten(j: &J, key: &str, path: &mut Vec<String>, out: &mut Flat) {
 
 const DEBUG_PANICKED: &str = "<debug panicked>";
 
+/// Where the last panic of the code under test was raised (file:line), recorded by the
+/// panic hook; data for the report, never judged.
+static LAST_PANIC: std::sync::Mutex<String> = std::sync::Mutex::new(String::new());
+
+fn record_panics() {
+    std::panic::set_hook(Box::new(|info| {
+        let at = info.location().map(|l| format!("{}:{}", l.file(), l.line())).unwrap_or_default();
+        if let Ok(mut g) = LAST_PANIC.lock() {
+            *g = at;
+        }
+    }));
+}
+
+fn last_panic() -> String {
+    LAST_PANIC.lock().map(|g| g.clone()).unwrap_or_default()
+}
+
 struct Call {
     out: &'static str, // ok | err | panic
     text: String,      // Debug text of the message, or the error text, or the panic text
+    at: String,        // panic location
     msg: Option<Message>,
     used: i64,
 }
@@ -830,10 +848,10 @@ fn call_try_from(b: &[u8]) -> Call {
     match catch_unwind(AssertUnwindSafe(|| Message::try_from(b))) {
         Ok(Ok(m)) => {
             let t = catch_unwind(AssertUnwindSafe(|| format!("{m:?}"))).unwrap_or_else(|_| DEBUG_PANICKED.into());
-            Call { out: "ok", text: t, msg: Some(m), used: b.len() as i64 }
+            Call { out: "ok", text: t, at: String::new(), msg: Some(m), used: b.len() as i64 }
         }
-        Ok(Err(e)) => Call { out: "err", text: format!("{e}"), msg: None, used: -1 },
-        Err(p) => Call { out: "panic", text: panic_text(p), msg: None, used: -1 },
+        Ok(Err(e)) => Call { out: "err", text: format!("{e}"), at: String::new(), msg: None, used: -1 },
+        Err(p) => Call { out: "panic", text: panic_text(p), at: last_panic(), msg: None, used: -1 },
     }
 }
 
@@ -841,10 +859,10 @@ fn call_from_bytes(b: &[u8]) -> Call {
     match catch_unwind(AssertUnwindSafe(|| Message::from_bytes((b, 0)).map(|((rest, _bit), m)| (rest.len(), m)))) {
         Ok(Ok((rest, m))) => {
             let t = catch_unwind(AssertUnwindSafe(|| format!("{m:?}"))).unwrap_or_else(|_| DEBUG_PANICKED.into());
-            Call { out: "ok", text: t, msg: Some(m), used: b.len() as i64 - rest as i64 }
+            Call { out: "ok", text: t, at: String::new(), msg: Some(m), used: b.len() as i64 - rest as i64 }
         }
-        Ok(Err(e)) => Call { out: "err", text: format!("{e}"), msg: None, used: -1 },
-        Err(p) => Call { out: "panic", text: panic_text(p), msg: None, used: -1 },
+        Ok(Err(e)) => Call { out: "err", text: format!("{e}"), at: String::new(), msg: None, used: -1 },
+        Err(p) => Call { out: "panic", text: panic_text(p), at: last_panic(), msg: None, used: -1 },
     }
 }
 
@@ -923,6 +941,9 @@ fn process(idx: u64, cls: &str, fill: &str, b: &[u8], cfg: &Cfg, sk: &mut Sinks,
         "disp": disp, "dbg": dbg,
         "fb_out": f1.out, "fb_out2": f2.out, "fb_h1": h31(&f1.text), "fb_h2": h31(&f2.text),
         "fb_used": f1.used, "fb_disp": fdisp, "fb_dbg": fdbg,
+        "at": if c1.out == "panic" { c1.at.clone() } else if f1.out == "panic" { f1.at.clone() }
+              else if disp == "panic" || dbg == "panic" || fdisp == "panic" || fdbg == "panic" { last_panic() } else { String::new() },
+        "ptxt": if c1.out == "panic" { c1.text.chars().take(100).collect::<String>() } else if f1.out == "panic" { f1.text.chars().take(100).collect::<String>() } else { String::new() },
     });
     if cfg.emit01 || probe_out.is_some() {
         emit(&mut sk.t01, &ev01);
@@ -1140,7 +1161,7 @@ fn new_sinks(out: &str) -> Sinks {
 }
 
 fn main() {
-    quiet_panics();
+    record_panics();
     let args: Vec<String> = std::env::args().skip(1).collect();
     match args.first().map(|s| s.as_str()) {
         Some("count") => {
